@@ -10,7 +10,9 @@ import (
 	"os"
 	"reflect"
 	"strings"
+	"sync"
 	"testing"
+	"time"
 
 	"pgregory.net/rapid"
 
@@ -53,6 +55,8 @@ type Node struct {
 	Next     int    `json:"next,omitempty"`     // node index the Location designates
 	LocForm  string `json:"loc_form,omitempty"` // abs | path | scheme-rel | rel | query | none | http | other-scheme | unparsable
 	LocName  string `json:"loc_name,omitempty"` // spelling of the header name
+	// delay before this URL's response starts (concurrent unit)
+	LatencyMs int `json:"latency_ms,omitempty"`
 }
 
 type Fetch struct {
@@ -65,6 +69,9 @@ type Fetch struct {
 type Case struct {
 	Nodes   []Node  `json:"nodes"`
 	Fetches []Fetch `json:"fetches"`
+	// Concurrent: the fetches are started together (each after its own delay), then repeated one by one
+	Concurrent bool  `json:"concurrent,omitempty"`
+	StartMs    []int `json:"start_ms,omitempty"`
 }
 
 const asAccept = `application/activity+json,application/ld+json; profile="https://www.w3.org/ns/activitystreams"`
@@ -192,9 +199,9 @@ func finalVerdict(n Node, profile string) string {
 }
 
 type expectation struct {
-	verdict string // doc | may | err
-	final   int    // node whose response is the document (doc/may)
-	path    []int  // nodes that must be requested, in order
+	verdict   string // doc | may | err
+	final     int    // node whose response is the document (doc/may)
+	path      []int  // nodes that must be requested, in order
 	exhausted bool
 }
 
@@ -233,12 +240,142 @@ func reference(c Case, f Fetch) expectation {
 	}
 }
 
+// judge compares one outcome with the history-free reference.
+func judge(c Case, f Fetch, prefix string, what string, doc map[string]any, source *url.URL, gerr error) error {
+	exp := reference(c, f)
+	switch exp.verdict {
+	case "err":
+		if gerr == nil || doc != nil || source != nil {
+			return fmt.Errorf("%s must fail but returned doc=%v source=%v err=%v\nresponse: %q", what, doc, source, gerr, clip(rawOf(c, c.Nodes[exp.pathLast()], prefix)))
+		}
+	case "doc":
+		fin := c.Nodes[exp.final]
+		var want map[string]any
+		json.Unmarshal([]byte(sim.Expand(fin.Body.Text, fin.Host, prefix)), &want)
+		wantSource := sim.URL(fin.Host, fin.target(prefix))
+		if gerr != nil {
+			return fmt.Errorf("%s must yield the document but failed: %v\nresponse: %q", what, gerr, clip(rawOf(c, fin, prefix)))
+		}
+		if !reflect.DeepEqual(doc, want) {
+			return fmt.Errorf("%s returned a different document: got %v want %v", what, doc, want)
+		}
+		if source == nil || source.String() != wantSource {
+			return fmt.Errorf("%s reported source %v, the final response came from %s", what, source, wantSource)
+		}
+	case "may":
+		if (gerr == nil) == (doc == nil) {
+			return fmt.Errorf("%s returned neither or both of document and error: doc=%v err=%v", what, doc, gerr)
+		}
+	}
+	return nil
+}
+
+func doFetch(f Fetch, link *url.URL) (map[string]any, *url.URL, error) {
+	if f.Via == "client" {
+		o, source, err := client.FetchURL(link)
+		return o, source, err
+	}
+	accept, tol := asAccept, asTolerated
+	if f.Profile == "jrd" {
+		accept, tol = "application/jrd+json", jrdTolerated
+	}
+	return jtp.Get(link, accept, tol, f.Budget)
+}
+
+// checkConcurrent: the fetches of one acyclic world run at the same time against slow servers (shared hops are in
+// flight for one fetch while another reaches them); every outcome, and every outcome of the same fetch repeated
+// afterwards, must be the history-free reference's.
+func checkConcurrent(c Case, prefix string, classes []string) vrep.Result {
+	classes = append(classes, "concurrent")
+	links := make([]*url.URL, len(c.Fetches))
+	for i, f := range c.Fetches {
+		n := c.Nodes[f.Node]
+		link, err := url.Parse(sim.URL(n.Host, n.target(prefix)))
+		if err != nil {
+			return vrep.Fail("harness: %v", err)
+		}
+		links[i] = link
+	}
+	type out struct {
+		doc    map[string]any
+		source *url.URL
+		err    error
+	}
+	outs := make([]out, len(c.Fetches))
+	var wg sync.WaitGroup
+	for i := range c.Fetches {
+		wg.Add(1)
+		go func(i int) {
+			defer wg.Done()
+			if i < len(c.StartMs) {
+				time.Sleep(time.Duration(c.StartMs[i]) * time.Millisecond)
+			}
+			outs[i].doc, outs[i].source, outs[i].err = doFetch(c.Fetches[i], links[i])
+		}(i)
+	}
+	wg.Wait()
+	sim.Quiesce()
+	shared := false
+	onPath := map[int]int{}
+	for _, f := range c.Fetches {
+		for _, p := range reference(c, f).path {
+			if c.Nodes[p].Redirect {
+				onPath[p]++
+				if onPath[p] > 1 {
+					shared = true
+				}
+			}
+		}
+	}
+	if shared {
+		classes = append(classes, "shared-redirecting-hop")
+	}
+	may := false
+	for i, f := range c.Fetches {
+		what := fmt.Sprintf("concurrent fetch %d (node %d, budget %d, start +%d ms)", i, f.Node, f.Budget, c.StartMs[i])
+		if err := judge(c, f, prefix, what, outs[i].doc, outs[i].source, outs[i].err); err != nil {
+			return vrep.Result{Classes: classes, Err: err}
+		}
+		classes = append(classes, "expect:"+reference(c, f).verdict)
+		may = may || reference(c, f).verdict == "may"
+	}
+	for i, f := range c.Fetches {
+		doc, source, gerr := doFetch(f, links[i])
+		what := fmt.Sprintf("fetch %d (node %d) repeated after the concurrent round", i, f.Node)
+		if err := judge(c, f, prefix, what, doc, source, gerr); err != nil {
+			return vrep.Result{Classes: classes, Err: err}
+		}
+		if (gerr == nil) != (outs[i].err == nil) || !reflect.DeepEqual(doc, outs[i].doc) {
+			return vrep.Result{Classes: classes, Err: fmt.Errorf("%s gave a different answer than during the round: then (%v,%v) now (%v,%v)", what, outs[i].doc, outs[i].err, doc, gerr)}
+		}
+	}
+	sim.Quiesce()
+	for _, conn := range sim.Log() {
+		known := false
+		for _, f := range c.Fetches {
+			for _, p := range reference(c, f).path {
+				if c.Nodes[p].Host == conn.Host && c.Nodes[p].target(prefix) == conn.Target {
+					known = true
+				}
+			}
+		}
+		if !known {
+			return vrep.Result{Classes: classes, Err: fmt.Errorf("a request went to host %d %q, which is on no fetch's hop sequence", conn.Host, conn.Target)}
+		}
+	}
+	return vrep.Result{Classes: classes, Nontrivial: shared, May: may}
+}
+
 func check(c Case) vrep.Result {
 	prefix := sim.NewPrefix()
 	sim.ClearRoutes()
 	sim.ResetLog()
 	for _, n := range c.Nodes {
-		sim.Set(n.Host, n.target(prefix), &vsim.Route{Raw: rawOf(c, n, prefix)})
+		r := &vsim.Route{Raw: rawOf(c, n, prefix)}
+		if n.LatencyMs > 0 {
+			r.Fault = &vsim.Fault{LatencyMs: n.LatencyMs}
+		}
+		sim.Set(n.Host, n.target(prefix), r)
 	}
 	classes := []string{fmt.Sprintf("cache:%d", config.Parsed.Network.CacheSize)}
 	canaryBefore := sim.CanaryConnections()
@@ -254,6 +391,9 @@ func check(c Case) vrep.Result {
 		if vrep.Excluded("redirect-cache-ignores-hop-budget") {
 			return vrep.Result{Classes: classes, Excluded: "redirect-cache-ignores-hop-budget"}
 		}
+	}
+	if c.Concurrent {
+		return checkConcurrent(c, prefix, classes)
 	}
 	type res struct {
 		doc    map[string]any
@@ -540,6 +680,39 @@ func genHistory(t *rapid.T) Case {
 	return c
 }
 
-func TestSingle(t *testing.T)  { vrep.Run(t, "Single", true, genSingle, check) }
-func TestHistory(t *testing.T) { vrep.Run(t, "History", true, genHistory, check) }
-func TestReplay(t *testing.T)  { vrep.Replay(t, vrep.ReplayCheckName(), check) }
+// genConcurrent: an acyclic world of slow redirecting URLs with several entry points into the same chains, fetched
+// at the same time with a constant budget far above the chain length.
+func genConcurrent(t *rapid.T) Case {
+	c := Case{Nodes: genWorld(t, 7), Concurrent: true}
+	nn := len(c.Nodes)
+	if c.Nodes[nn-1].Redirect {
+		c.Nodes[nn-1] = Node{Host: c.Nodes[nn-1].Host, Dir: c.Nodes[nn-1].Dir, Name: c.Nodes[nn-1].Name, Query: c.Nodes[nn-1].Query}
+		genFinal(t, &c.Nodes[nn-1])
+	}
+	for i := range c.Nodes {
+		n := &c.Nodes[i]
+		n.LatencyMs = rapid.SampledFrom([]int{0, 0, 5, 15, 30}).Draw(t, "latency")
+		if n.Redirect {
+			n.Next = i + 1 + n.Next%(nn-i-1) // forwards only: no cycles, so no fetch exhausts the budget
+			if n.LocForm == "query" || n.LocForm == "rel" || n.LocForm == "path" {
+				n.LocForm = "abs"
+			}
+			if rapid.IntRange(0, 2).Draw(t, "plainloc") > 0 {
+				n.LocForm, n.LocName = "abs", ""
+			}
+		}
+	}
+	nf := rapid.IntRange(2, 6).Draw(t, "nfetches")
+	for i := 0; i < nf; i++ {
+		f := genFetch(t, nn, 20)
+		f.Profile = "as"
+		c.Fetches = append(c.Fetches, f)
+		c.StartMs = append(c.StartMs, rapid.SampledFrom([]int{0, 0, 2, 5, 10, 20, 40}).Draw(t, "start"))
+	}
+	return c
+}
+
+func TestConcurrent(t *testing.T) { vrep.Run(t, "Concurrent", true, genConcurrent, check) }
+func TestSingle(t *testing.T)     { vrep.Run(t, "Single", true, genSingle, check) }
+func TestHistory(t *testing.T)    { vrep.Run(t, "History", true, genHistory, check) }
+func TestReplay(t *testing.T)     { vrep.Replay(t, vrep.ReplayCheckName(), check) }
